@@ -492,9 +492,20 @@ func generate(r *core.Rand, quick bool) []*Case {
 	for _, lc := range []struct{ kind, via, fault string }{
 		{"dial", "plain", "refused"}, {"dial", "plain", "timeout"}, {"dial", "connect", "refused"},
 		{"tls", "https", "expired"}, {"tls", "https", "plain-http"}, {"tls", "https", "alert"}, {"tls", "https", "local-alert"},
-		{"tls", "https", "garbage"}, {"tls", "https", "reset"}, {"tls", "https", "closed"},
+		{"tls", "https", "garbage"}, {"tls", "https", "reset"}, {"tls", "https", "closed"}, {"tls", "https", "stall"},
 	} {
 		g.add(&Case{Kind: "label", Via: lc.via, Fault: lc.fault, What: lc.kind})
+	}
+	// L. request lines that name another version than HTTP/1.0 and HTTP/1.1 (http.ReadRequest takes any
+	// HTTP/<d>.<d>): the error response and the relayed CONNECT rejection are written as HTTP/1.1
+	// (F36, repaired: a regression target; the model gets the request's version, proxyutil.SetProto is its respMinor)
+	for _, minor := range []int{7, 2} {
+		for _, via := range []string{"plain", "https", "mitm"} {
+			g.add(&Case{Kind: "dial", Via: via, Fault: "refused"}).ReqMinor = minor
+		}
+		for _, via := range []string{"https", "mitm"} {
+			g.add(&Case{Kind: "connect", Via: via, Upstream: "up", ReplyHex: core.HexS(rejections[1]), CK: -1}).ReqMinor = minor
+		}
 	}
 	return g.out
 }
